@@ -5,7 +5,6 @@
 package main
 
 import (
-	"time"
 	"bufio"
 	"encoding/json"
 	"flag"
@@ -13,7 +12,11 @@ import (
 	"math/rand"
 	"os"
 	"runtime/pprof"
+	"strconv"
+	"strings"
 	"sync"
+	"sync/atomic"
+	"time"
 
 	"github.com/metal-toolbox/audito-maldito/verifharness/l1"
 	"github.com/metal-toolbox/audito-maldito/verifharness/sched"
@@ -75,6 +78,7 @@ func runOnce(p Program, seed int64, prefix []int, mode sched.Mode, rng *rand.Ran
 		post = append(post, w.Prepare(c))
 	}
 	var ex *sched.Exec
+	freeHung := false
 	if free {
 		var wg sync.WaitGroup
 		for _, f := range fns {
@@ -82,7 +86,15 @@ func runOnce(p Program, seed int64, prefix []int, mode sched.Mode, rng *rand.Ran
 			f := f
 			go func() { defer wg.Done(); f() }()
 		}
-		wg.Wait()
+		// free-running threads can deadlock for real: a watchdog instead of waiting for ever (the threads are left behind)
+		fin := make(chan struct{})
+		go func() { wg.Wait(); close(fin) }()
+		select {
+		case <-fin:
+		case <-time.After(freeWait()):
+			freeHangs.Add(1)
+			freeHung = true
+		}
 	} else {
 		w.Enc.Point = func() func() { return sched.Point(w.Enc, "Encode") }
 		ex = sched.Run(fns, prefix, mode, rng, maxPre, func(e *sched.Exec) { e.Name(w.Enc, "enc") })
@@ -90,18 +102,26 @@ func runOnce(p Program, seed int64, prefix []int, mode sched.Mode, rng *rand.Ran
 	if p.Post == nil {
 		p.Post = []l1.Call{}
 	}
-	if ex == nil || (!ex.Deadlock && !ex.Hang) {
+	if !freeHung && (ex == nil || (!ex.Deadlock && !ex.Hang)) {
 		for _, f := range post {
 			if err := f(); err != nil {
+				pm.Lock()
 				nerr++
+				pm.Unlock()
 			}
 		}
 	}
-	o := &Outcome{K: "outcome", Name: p.Name, Threads: p.Threads, Post: p.Post, Errs: nerr, Panic: panics, Sched: []int{},
+	pm.Lock()
+	ne, pn := nerr, panics
+	pm.Unlock()
+	o := &Outcome{K: "outcome", Name: p.Name, Threads: p.Threads, Post: p.Post, Errs: ne, Panic: pn, Sched: []int{},
 		St: &l1.StProj{Sess: []l1.SessProj{}, Wait: []l1.WaitProj{}}}
 	if ex != nil {
 		o.Deadlock, o.Hang = ex.Deadlock, ex.Hang
 		o.Sched = ex.Taken
+	}
+	if freeHung {
+		o.Hang = true
 	}
 	if !o.Deadlock && !o.Hang {
 		o.Outs = w.Project(w.Enc.Take())
@@ -111,6 +131,15 @@ func runOnce(p Program, seed int64, prefix []int, mode sched.Mode, rng *rand.Ran
 		o.Outs = []l1.Out{}
 	}
 	return o, ex
+}
+
+var freeHangs atomic.Int64
+
+func freeWait() time.Duration {
+	if freeHangs.Load() > 4 {
+		return 200 * time.Millisecond
+	}
+	return 3 * time.Second
 }
 
 func key(o *Outcome) string {
@@ -126,6 +155,7 @@ func main() {
 	randN := flag.Int("random", 0, "additional seeded random schedules per program")
 	maxPre := flag.Int("preempt", -1, "pre-emption bound for the exhaustive search (-1: unbounded)")
 	budget := flag.Duration("budget", 0, "wall-clock budget per program for the exhaustive search (0: none)")
+	schedule := flag.String("schedule", "", "replay: run every program once under exactly this schedule (comma separated choices)")
 	free := flag.Int("free", 0, "free-running repetitions per program (for -race builds); no scheduler")
 	prof := flag.String("cpuprofile", "", "write a CPU profile")
 	flag.Parse()
@@ -166,7 +196,18 @@ func main() {
 			}
 			seen[k] = o
 		}
-		if *free > 0 {
+		if *schedule != "" {
+			var prefix []int
+			for _, f := range strings.Split(*schedule, ",") {
+				if v, err := strconv.Atoi(strings.TrimSpace(f)); err == nil {
+					prefix = append(prefix, v)
+				}
+			}
+			// the seed of an execution is seed + its number in the search; the concretisation does not depend on it
+			o, ex := runOnce(p, *seed, prefix, sched.First, rng, *maxPre, false)
+			record(o, ex)
+			n++
+		} else if *free > 0 {
 			for i := 0; i < *free; i++ {
 				o, _ := runOnce(p, *seed+int64(i), nil, sched.First, rng, -1, true)
 				record(o, nil)
